@@ -240,7 +240,7 @@ def cut_dims(part):
 
 
 def _cut_point(idx):
-    c, seg, dc, (rk, m) = decode_point(idx, cut_dims(P))
+    c, seg, dc, (rk, m) = decode_point(idx, cut_dims)
     if rk == R_ITER and not dc:
         return True
     return N._untraced(_cut_body)(c, seg, dc, rk, m)
@@ -324,7 +324,7 @@ def corrupt_dims(part):
 
 
 def _corrupt_point(idx):
-    i, v, seg, dc, (rk, m) = decode_point(idx, corrupt_dims(P))
+    i, v, seg, dc, (rk, m) = decode_point(idx, corrupt_dims)
     if rk == R_ITER and not dc:
         return True
     return N._untraced(_corrupt_body)(i, v, seg, dc, rk, m)
@@ -412,7 +412,7 @@ def length_dims(part):
 
 
 def _length_point(idx):
-    return N._untraced(_length_body)(*decode_point(idx, length_dims(P)))
+    return N._untraced(_length_body)(*decode_point(idx, length_dims))
 
 
 def c13_length(idx: int) -> bool:
